@@ -141,7 +141,75 @@ func ruleR5_1(r *Run) {
 					}
 				}
 			}
+			// the dispatch may have been moved into a helper method of the backend that calls both scanners
+			// (go db.rangeQuery(ctx, kStart, kEnd, ch, done, keysOnly)): the consumer is then checked at its
+			// call of the helper, the helper itself is a consumer of its own (dispatch and argument order).
 			if vcall == nil {
+				var hcall ssa.CallInstruction
+				var helper *ssa.Function
+				for _, g := range withClosures(f) {
+					for _, c := range calls(g) {
+						h := c.Common().StaticCallee()
+						if h == nil || h == f || len(h.Blocks) == 0 || h.Signature.Recv() == nil || namedOf(h.Signature.Recv().Type()) != b {
+							continue
+						}
+						hv, hu := false, false
+						for _, hc := range calls(h) {
+							if hc.Common().StaticCallee() == sc.versioned {
+								hv = true
+							}
+							if hc.Common().StaticCallee() == sc.unversioned {
+								hu = true
+							}
+						}
+						if hv && hu {
+							hcall, helper = c, h
+						}
+					}
+				}
+				if hcall == nil {
+					continue
+				}
+				nCons++
+				cn := bn + "." + f.Name()
+				tp := tkeyParams(f)
+				var targs []ssa.Value
+				var flag ssa.Value
+				for k, p := range helper.Params {
+					if isTKey(p.Type()) {
+						targs = append(targs, hcall.Common().Args[k])
+					}
+					if bt, ok := p.Type().(*types.Basic); ok && bt.Kind() == types.Bool {
+						flag = hcall.Common().Args[k]
+					}
+				}
+				r.check(true, cn+":dispatch", "dispatches through "+helper.Name()+", which is checked as a consumer of its own", "", w.pos(hcall.Pos()))
+				if len(tp) == 2 {
+					ok := len(targs) == 2 && rootsAre(targs[0], hcall.Parent(), tp[0]) && rootsAre(targs[1], hcall.Parent(), tp[1])
+					r.check(ok, cn+":bounds:"+helper.Name(), "the dispatching helper receives (kStart, kEnd) in that order",
+						"the dispatching helper is not given the consumer's own (kStart, kEnd) in order", w.pos(hcall.Pos()))
+				}
+				readsV := false
+				for _, g := range withClosures(f) {
+					for _, blk := range g.Blocks {
+						for _, in := range blk.Instrs {
+							if fa, ok := in.(*ssa.FieldAddr); ok {
+								if name, _, _ := fieldName(fa); name == "V" && typeIs(fa.X.Type(), "storage", "KeyValue") {
+									readsV = true
+								}
+							}
+						}
+					}
+				}
+				keysOnlyTrue := true // unknown flag counts as possibly keys-only
+				if flag != nil {
+					if k, ok := flag.(*ssa.Const); ok && constVal(k).K == ABool {
+						keysOnlyTrue = constVal(k).B
+					}
+				}
+				r.check(!(readsV && keysOnlyTrue), cn+":keysOnly", fmt.Sprintf("consumer reads values=%v, keysOnly=%v", readsV, keysOnlyTrue),
+					"the consumer uses the values of the scanned pairs but asks the scanner for keys only", w.fpos(f))
+				r5_1ErrorBeforeEnd(r, f, cn)
 				continue
 			}
 			nCons++
@@ -205,41 +273,47 @@ func ruleR5_1(r *Run) {
 			}
 			r.check(!(readsV && keysOnly[true]), cn+":keysOnly", fmt.Sprintf("consumer reads values=%v, keysOnly=%v", readsV, keysOnly),
 				"the consumer uses the values of the scanned pairs but asks the scanner for keys only", w.fpos(f))
-			// error tested before end-of-stream
-			for _, blk := range f.Blocks {
-				for _, in := range blk.Instrs {
-					u, ok := in.(*ssa.UnOp)
-					if !ok || u.Op != token.ARROW || !chanOfKV(u.X.Type()) {
-						continue
-					}
-					isErrTest := func(x ssa.Instruction) bool {
-						ifi, ok := x.(*ssa.If)
-						if !ok {
-							return false
-						}
-						bo, ok := ifi.Cond.(*ssa.BinOp)
-						if !ok {
-							return false
-						}
-						for _, op := range []ssa.Value{bo.X, bo.Y} {
-							if isErrorType(op.Type()) && isFieldReadOfValue(op, "error", u, f) {
-								return true
-							}
-						}
-						return false
-					}
-					exit := func(x ssa.Instruction) bool {
-						ret, ok := x.(*ssa.Return)
-						return ok && !isErrorExit(ret)
-					}
-					p := findPath(f, u, isErrTest, exit, nil)
-					r.check(p == nil, cn+":error-before-end",
-						"after each receive the error component is tested before the stream can be treated as finished",
-						"a received item's error is not tested before end-of-stream is acted on: a resolver/iterator error ends the scan silently and the consumer reports success on partial results", w.pos(u.Pos()), w.renderPath(p)...)
-				}
-			}
+			r5_1ErrorBeforeEnd(r, f, cn)
 		}
 		r.check(nCons >= 5, bn+":consumers", fmt.Sprintf("%d range consumers analysed", nCons), fmt.Sprintf("only %d range consumers found (GetRange, KeysInRange, SendKeysInRange, ProcessRange, DeleteRange expected)", nCons), "-")
+	}
+}
+
+// r5_1ErrorBeforeEnd: after each receive from the scanner's channel the error component is tested before the stream
+// can be treated as finished.
+func r5_1ErrorBeforeEnd(r *Run, f *ssa.Function, cn string) {
+	w := r.W
+	for _, blk := range f.Blocks {
+		for _, in := range blk.Instrs {
+			u, ok := in.(*ssa.UnOp)
+			if !ok || u.Op != token.ARROW || !chanOfKV(u.X.Type()) {
+				continue
+			}
+			isErrTest := func(x ssa.Instruction) bool {
+				ifi, ok := x.(*ssa.If)
+				if !ok {
+					return false
+				}
+				bo, ok := ifi.Cond.(*ssa.BinOp)
+				if !ok {
+					return false
+				}
+				for _, op := range []ssa.Value{bo.X, bo.Y} {
+					if isErrorType(op.Type()) && isFieldReadOfValue(op, "error", u, f) {
+						return true
+					}
+				}
+				return false
+			}
+			exit := func(x ssa.Instruction) bool {
+				ret, ok := x.(*ssa.Return)
+				return ok && !isErrorExit(ret)
+			}
+			p := findPath(f, u, isErrTest, exit, nil)
+			r.check(p == nil, cn+":error-before-end",
+				"after each receive the error component is tested before the stream can be treated as finished",
+				"a received item's error is not tested before end-of-stream is acted on: a resolver/iterator error ends the scan silently and the consumer reports success on partial results", w.pos(u.Pos()), w.renderPath(p)...)
+		}
 	}
 }
 
